@@ -7,6 +7,8 @@ import (
 	zed "github.com/brimdata/super"
 	"pgregory.net/rapid"
 
+	"github.com/brimdata/super/zcode"
+
 	"verif/gen"
 	"verif/oracle"
 	"verif/vt"
@@ -135,6 +137,7 @@ var valueOps = []opTmpl{
 	tmpl("where this > 1", "", "keep", ""), tmpl(`where this == "a"`, "", "keep", ""), tmpl("where this <= 3", "", "keep", ""),
 	tmpl("yield {v:this}", "", "set", "v"), tmpl("yield {v:this}", "", "set", "v"), tmpl("yield this", "", "keep", ""),
 	tmpl("cut a", "a", "set", "a"), tmpl("put x:=1", "", "keep", ""), tmpl("drop a", "a", "keep", ""),
+	tmpl("rename q:=a", "a", "keep", ""), tmpl("over this", "", "keep", ""),
 }
 
 type opState struct {
@@ -329,14 +332,6 @@ func runVamOps(data []byte, ops []string) vamResult {
 	return runVam(data, strings.Join(ops, " | "))
 }
 
-func referencesField(op string) bool {
-	switch opKind(op) {
-	case "head", "tail":
-		return false
-	}
-	return !strings.HasSuffix(op, " this") && op != "yield {v:this}"
-}
-
 // symFamily reduces a symptom to the family used in signatures: values-differ (same number of values, some value or
 // its type differs), count-differs, order-differs, panic(...)@frame, query-error(...).
 func symFamily(sym string) string {
@@ -347,15 +342,6 @@ func symFamily(sym string) string {
 		return "count-differs"
 	}
 	return "values-differ"
-}
-
-// countMissing counts error("missing") occurrences (at any depth) in the rendering of vals.
-func countMissing(vals []zed.Value) int {
-	n := 0
-	for _, v := range vals {
-		n += strings.Count(oracle.Show(v), `error("missing")`)
-	}
-	return n
 }
 
 // producesView: where with a partial selection, tail that truncates and head that reaches its limit hand a
@@ -375,50 +361,71 @@ func producesView(op string, in, out int) bool {
 	return false
 }
 
-// opsRootCause recognises root causes that show up under many operator/symptom combinations.
-func opsRootCause(ops []string, at int, lens []int, shapeAt, sym string, sam, vam []zed.Value) string {
-	if strings.HasPrefix(sym, "panic(") || strings.HasPrefix(sym, "query-error(") {
+// substituteIncompatible returns vals with every error("incompatible types") replaced by error("missing"): what the
+// vector runtime would have returned had its arithmetic/comparison propagated the missing operand.
+func substituteIncompatible(vals []zed.Value) []zed.Value {
+	out := make([]zed.Value, len(vals))
+	for i, v := range vals {
+		out[i] = oracle.MapLeaves(v, func(typ zed.Type, body zcode.Bytes) zcode.Bytes {
+			if typ == zed.TypeString && string(body) == "incompatible types" {
+				return zcode.Bytes("missing")
+			}
+			return body
+		}).Copy()
+	}
+	return out
+}
+
+// singleOpRootCause classifies the difference of ONE operator on fresh input by root cause, each verified by a
+// recheck; "" = no rule (the operator(shape)/symptom signature is used).  It returns complete signatures.
+func singleOpRootCause(zctx *zed.Context, op, shape string, in, sam []zed.Value, vam vamResult) string {
+	if vam.panicMsg != "" || vam.runErr != nil {
 		return ""
 	}
-	// 1. over: a value whose over-expression is missing contributes error("missing") instead of nothing
-	if opKind(ops[at]) == "over" && vam != nil {
+	// 1. the expression-level finding reached through an operator: an arithmetic or comparison operand is missing (or
+	// another error) and the vector runtime answers error("incompatible types") instead of propagating it.  Verified
+	// by substituting the propagated error into the vector result.
+	if computes(op) && oracle.Same(sam, substituteIncompatible(vam.vals)) == "" {
+		if strings.ContainsAny(op, "+*") || strings.Contains(op, "a-b") {
+			return "C09/expr/arith/error-operand-not-propagated"
+		}
+		return "C09/expr/compare/error-operand-not-propagated"
+	}
+	// 2. over: a value whose over-expression is missing contributes error("missing") instead of nothing.  Verified by
+	// removing those from the vector result.
+	if opKind(op) == "over" {
 		var kept []zed.Value
-		for _, v := range vam {
+		for _, v := range vam.vals {
 			if !v.IsMissing() {
 				kept = append(kept, v)
 			}
 		}
-		if len(kept) < len(vam) && oracle.Same(sam, kept) == "" {
-			return "over/missing-input-emits-error-missing"
+		if len(kept) < len(vam.vals) && oracle.Same(sam, kept) == "" {
+			return "C09/ops/over/missing-input-emits-error-missing"
 		}
 	}
-	// 2. a record operator applied to values that are not records
-	if at > 0 || true {
-		switch opKind(ops[at]) {
-		case "drop", "rename", "put", "cut":
-			if shapeAt == "values" || shapeAt == "mixed" {
-				return "record-operator-on-non-record(" + opKind(ops[at]) + ")"
+	// 3. a record operator applied to values that are not records.  Verified by running it on the records alone.
+	switch opKind(op) {
+	case "drop", "rename", "put", "cut":
+		if shape == "values" || shape == "mixed" {
+			var recs []zed.Value
+			for _, v := range in {
+				if zed.TypeRecordOf(v.Type()) != nil && !v.IsNull() {
+					recs = append(recs, v)
+				}
 			}
-		}
-	}
-	// 3. field access on the output of an operator that selected a subset (where, head, tail produce vector views;
-	// sort materialises and re-vectorises)
-	viewEvidence := countMissing(vam) > countMissing(sam)
-	switch opKind(ops[at]) {
-	case "where":
-		viewEvidence = viewEvidence || len(vam) < len(sam)
-	case "rename", "drop", "over":
-		// these operators only handle *vector.Record / arrays directly: behind a view they leave the value unchanged
-		viewEvidence = true
-	}
-	if referencesField(ops[at]) && viewEvidence {
-		for j := at - 1; j >= 0; j-- {
-			k := opKind(ops[j])
-			if k == "sort" {
-				break
+			ok := true
+			if len(recs) > 0 {
+				s, serr := runSam(zctx, recs, op)
+				data, derr := vngBytes(recs)
+				if serr != nil || derr != nil {
+					ok = false
+				} else if v := runVamOps(data, []string{op}); v.panicMsg != "" || v.runErr != nil || v.compileErr != nil || oracle.Same(s, v.vals) != "" {
+					ok = false
+				}
 			}
-			if j+1 < len(lens) && producesView(ops[j], lens[j], lens[j+1]) {
-				return "field-access-after-subset(" + opKind(ops[at]) + ")"
+			if ok {
+				return "C09/ops/record-operator-on-non-record(" + opKind(op) + ")"
 			}
 		}
 	}
@@ -468,7 +475,7 @@ func runOpsCase(c OpsCase) *vt.Outcome {
 	at, shape, detail := len(c.Ops)-1, streamShape(vals), ""
 	prev := vals
 	lens := []int{len(vals)} // lens[j] = number of values entering operator j
-	var samAt, vamAt []zed.Value
+	var samAt []zed.Value
 	for j := range c.Ops {
 		p := strings.Join(c.Ops[:j+1], " | ")
 		s, serr := runSam(c.Input.Zctx, vals, p)
@@ -481,19 +488,52 @@ func runOpsCase(c OpsCase) *vt.Outcome {
 		}
 		if ps, d := whole(v, s); ps != "" {
 			at, sym, shape, detail = j, ps, streamShape(prev), d
-			samAt, vamAt = s, v.vals
+			samAt = s
 			break
 		}
 		lens = append(lens, len(s))
 		prev = s
 	}
-	sig := "C09/ops/" + opKind(c.Ops[at]) + "(" + shape + ")/" + symFamily(sym)
-	if rc := opsRootCause(c.Ops, at, lens, shape, sym, samAt, vamAt); rc != "" {
-		sig = "C09/ops/" + rc
+	op := c.Ops[at]
+	sig := "C09/ops/" + opKind(op) + "(" + shape + ")/" + symFamily(sym)
+	var minimal any = c
+	how := ""
+	if !strings.HasPrefix(sym, "panic(") && !strings.HasPrefix(sym, "query-error(") && samAt != nil {
+		// Root cause by a neutralise-and-recheck step: feed the failing operator ALONE, through the vector runtime, the
+		// values that entered it (the agreed output of the prefix, re-vectorised from a fresh VNG object).
+		if inData, err := vngBytes(prev); err == nil {
+			staged := runVamOps(inData, c.Ops[at:at+1])
+			ssym, sdetail := whole(staged, samAt)
+			switch {
+			case staged.compileErr != nil:
+			case ssym == "":
+				// the operator is right on a fresh vector: the difference comes from the FORM of the vector its
+				// predecessor handed over (a view after where/head/tail, stale types after rename, ...)
+				sig = "C09/ops/stale-vector-form(" + opKind(op) + ")"
+				how = "the operator alone agrees on the same values re-vectorised"
+				for j := at - 1; j >= 0 && opKind(c.Ops[j]) != "sort"; j-- {
+					if j+1 < len(lens) && producesView(c.Ops[j], lens[j], lens[j+1]) {
+						sig = "C09/ops/field-access-after-subset(" + opKind(op) + ")"
+						how += "; `" + c.Ops[j] + "` handed on a subset (vector view)"
+						break
+					}
+				}
+			default:
+				// the operator alone differs on these values: a one-operator reproduction
+				single := OpsCase{Input: gen.Seq{Zctx: c.Input.Zctx, Vals: prev}, Ops: c.Ops[at : at+1]}
+				minimal = single
+				sym, detail = ssym, sdetail
+				how = "the operator alone differs on the same values re-vectorised"
+				sig = "C09/ops/" + opKind(op) + "(" + shape + ")/" + symFamily(ssym)
+				if rc := singleOpRootCause(c.Input.Zctx, op, shape, prev, samAt, staged); rc != "" {
+					sig = rc
+				}
+			}
+		}
 	}
-	msg := fmt.Sprintf("`%s` over %d values (e.g. %s): the vector runtime differs from the sequential runtime from operator %d (`%s`, input %s) on: %s: %s",
-		prog, len(vals), oracle.Show(vals[0]), at+1, c.Ops[at], shape, sym, detail)
-	if vt.IsKnown(sig) || discover("TestVamOps", sig, msg, c) {
+	msg := fmt.Sprintf("`%s` over %d values (e.g. %s): the vector runtime differs from the sequential runtime from operator %d (`%s`, input %s; %s) on: %s: %s",
+		prog, len(vals), oracle.Show(vals[0]), at+1, op, shape, how, sym, detail)
+	if vt.IsKnown(sig) || discover("TestVamOps", sig, msg, minimal) {
 		o.Known = append(o.Known, sig)
 		return o
 	}
@@ -505,7 +545,7 @@ var opsProp = &vt.Prop[OpsCase]{
 	Name: "TestVamOps",
 	Rule: "file level, operator pipelines: input = 1..25 (6%: 258..290) records {a:int64, b:int64|float64 (always present, never null), s:string, m: a column of up to 4 kinds (only moved, never computed on), c:[int64], r:{x,y}} following 1..4 row templates (so at most 4 record types per input; at most 2 record-building operators between sorts - the vector runtime's record expressions cost K^(2^depth) for K record types) with const/dict/plain columns; " +
 		"program = 1..4 operators of cut (paths, assignments, missing fields), drop, put (new, overwrite, nested), rename, yield (field, several expressions, record expression, spread), where (comparisons and arithmetic on a, b, s that the expression-level test found to agree), head, tail, sort (-r, several keys, mixed-type key, -nulls first), over (array, record, two expressions), and value-level operators once the stream holds primitives. " +
-		"The whole output of compiler.VectorCompile over the VNG object of the input must be identical (sequence; identity = type value bytes + value bytes) to the sequential runtime's; a difference is localised to the first operator whose prefix program differs and classified as operator(input shape)/symptom. Programs the vector compiler rejects are skipped (counted). Non-trivial = accepted by the vector compiler.",
+		"The whole output of compiler.VectorCompile over the VNG object of the input must be identical (sequence; identity = type value bytes + value bytes) to the sequential runtime's; a difference is localised to the first operator whose prefix program differs; then that operator is run ALONE through the vector runtime on the values that entered it (re-vectorised): if it agrees there, the cause is the form of the vector handed over (view after where/head/tail -> field-access-after-subset(op), otherwise stale-vector-form(op)); if it differs, the one-operator case is classified by verified root-cause rules (missing/error operand not propagated - checked by substituting the propagated error; over on missing input; record operator on non-records - checked on the records alone) or as operator(input shape)/symptom family. Programs the vector compiler rejects are skipped (counted). Non-trivial = accepted by the vector compiler.",
 	Gen: genOpsCase,
 	Run: runOpsCase,
 }
